@@ -172,7 +172,7 @@ def rand_ops(r, n_samples, sr, length):
     for _ in range(length):
         k = r.random()
         if k < 0.45:
-            ops.append([3, r.choice([[], [-1], [0], [1], [2], [3], [r.randint(0, n_samples + 2)]])])
+            ops.append([3, r.choice([[], [-1], [0], [1], [2], [3], [r.randint(0, n_samples + 2)], [r.choice([2 ** 31, 2 ** 62, 2 ** 63 - 1, 2 ** 63, 2 ** 64 + 5])]])])
         elif k < 0.55:
             ops.append([r.choice([4, 5, 6])])
         elif k < 0.70:
